@@ -201,3 +201,27 @@ Example C07_device_example :
   DeviceHandler.forwarders (DeviceHandler.drun false 0 evs (DeviceHandler.dinit items)) = 3%nat /\
   DeviceHandler.acks (DeviceHandler.drun true 0 evs (DeviceHandler.dinit items)) = [].
 Proof. cbv zeta. split; [reflexivity|]. split; [vm_compute; reflexivity|]. split; vm_compute; reflexivity. Qed.
+
+(* ---- round 7: an abandoned Shutdown ----
+   Shutdown is SendMessage(CloseConnection) + Close on an acceptable reply; until the write loop TAKES the CloseConnection
+   nothing of it exists for the connection. Here Shutdown (caller 50) waits at the gate while negotiation is running and its
+   context ends; a keep-alive that arrived meanwhile and one that arrives afterwards are both queued and acknowledged: the
+   dispatch (theorem 3, any state) and the write loop (theorems 6-8) never look at whether somebody called Shutdown. The
+   check family abandoned-shutdown ties this to the code (a flag raised by the CALL and consulted by the ackHandler is the
+   change it reports). *)
+Definition abandoned_shutdown_evs : list event :=
+  [ConnStart; ConnFirst ren_ok HBNone; NegSubmit 1000; RCheck; WDefault; WAccept 1000; WWriteHdr;
+   Submit 50 (mkReq T_CloseConnection 0 0 0 1 true true);
+   RFrame (ka 21) HBNone; RCheck; WTakeAck; WWriteHdr;
+   Cancel 50;
+   RFrame (mkFrame 2 T_GetSupportedVersionResponse 0 10 7 (IVer 2 2 0)) HBNone; RCheck; NegStep; ConnReady;
+   RFrame (ka 22) HBNone; RCheck; WTakeAck; WWriteHdr].
+Example C07_abandoned_shutdown_example :
+  let s := run cfg11 abandoned_shutdown_evs in
+  caller_result s 50 = Some RErrCtx /\ phase s = PReady /\ closed s = false /\
+  acked s = [21; 22] /\ ackq s = [] /\ writer s = WTop /\
+  map (fun o => f_typ (o_frame o)) (out s) = [T_GetSupportedVersion; T_KeepAliveAck; T_KeepAliveAck].
+Proof.
+  cbv zeta. split; [vm_compute; reflexivity|]. split; [vm_compute; reflexivity|]. split; [vm_compute; reflexivity|].
+  split; [vm_compute; reflexivity|]. split; [vm_compute; reflexivity|]. split; vm_compute; reflexivity.
+Qed.
